@@ -376,6 +376,56 @@ def pb_direct_cases(draw, tier, name):
     return {'op': name, 'x': x, 'y': y, 'zbar': zbar, 'view': 'pb-direct'}
 
 
+# ---------------------------------------------------------------------------
+# the same polynomial object used again after it has been updated in place (operators; C01 does this for the elementary functions)
+# ---------------------------------------------------------------------------
+
+RECALL = {
+    'c/x': lambda x, c: c / x, 'c-x': lambda x, c: c - x, 'c+x': lambda x, c: c + x, 'c*x': lambda x, c: c * x, 'c**x': lambda x, c: c ** x,
+    'x/c': lambda x, c: x / c, 'x**2': lambda x, c: x ** 2, 'x**-1': lambda x, c: x ** -1, 'x**1.5': lambda x, c: x ** 1.5, '-x': lambda x, c: -x,
+    'abs': lambda x, c: abs(x), 'x*x': lambda x, c: x * x, 'x/x': lambda x, c: x / x, 'x**x': lambda x, c: x ** x,
+    'reciprocal': lambda x, c: UTPM.reciprocal(x), 'sqrt': lambda x, c: UTPM.sqrt(x), 'x.T': lambda x, c: x.T * 1.0,
+    'sum': lambda x, c: UTPM.sum(x), 'dot': lambda x, c: algopy.dot(x, x.T) if x.ndim == 2 else algopy.dot(x, x) if x.ndim == 1 else x * x,
+}
+
+
+def prop_recall(case, stats):
+    f = RECALL[case['op']]
+    c = case['c']
+    x = UTPM(case['x'].copy())
+    y1 = guard(f, x, c)
+    snap = y1.data.tobytes() if isinstance(y1, UTPM) else None
+    how = case['update']
+    x2 = case['x2']
+    if how == 'data':
+        x.data[...] = x2
+    elif how == 'setitem':
+        x[...] = UTPM(x2.copy())
+    elif how == 'iadd':
+        x += UTPM(x2 - case['x'])
+    elif how == 'imul':
+        x *= 2.0
+    else:
+        x /= 2.0
+    now = x.data.copy()
+    y2 = guard(f, x, c)
+    ref = guard(f, UTPM(now.copy()), c)
+    if snap is not None and y1.data.tobytes() != snap:
+        raise Violation('%s: the result of the first evaluation changed when the operand was updated in place (%s) and the expression evaluated again' % (case['op'], how))
+    _cmp(y2, ref, '%s after updating the same object in place (%s) vs the same expression on a fresh polynomial with these coefficients' % (case['op'], how), stats)
+
+
+@st.composite
+def recall_cases(draw, tier, op):
+    D, P = draw(gen.dims(Dmax=4, Pmax=3))
+    shape = draw(gen.shapes(max_rank=2, max_side=3))
+    pos = gen.interval_union((0.5, 2.0))
+    x = draw(gen.utpm_data(D, P, shape, pos))
+    x2 = draw(gen.utpm_data(D, P, shape, pos))
+    return {'op': op, 'x': x, 'x2': x2, 'c': draw(st.sampled_from([2.0, 0.5, 3.0, 1.5])),
+            'update': draw(st.sampled_from(['data', 'setitem', 'iadd', 'imul', 'idiv'])), 'view': 'recall'}
+
+
 def _nt_alias(case):
     return case['x'].shape[0] >= 2 and case['x'].ndim >= 3
 
@@ -397,6 +447,9 @@ def buckets(tier):
     bl.append(Bucket('operands:compose', (lambda: M.meta_cases(tier, max_len=8)), prop_operands,
                      {'quick': 40, 'thorough': 500}, nontrivial=_nt_prog, classes=M.base_classes,
                      shards={'quick': 4, 'thorough': 8}, weight=3.0))
+    for op in RECALL:
+        bl.append(Bucket('recall:' + op, (lambda op=op: recall_cases(tier, op)), prop_recall, {'quick': 25, 'thorough': 250},
+                         nontrivial=_nt_alias, classes=(lambda case: _cl_alias(case) + ['update=' + case['update']])))
     for name in PB_UNARY + PB_BINARY:
         bl.append(Bucket('pb-direct:' + name, (lambda name=name: pb_direct_cases(tier, name)), prop_pb_direct,
                          {'quick': 25, 'thorough': 250}, nontrivial=_nt_alias, classes=_cl_alias))
